@@ -486,4 +486,77 @@ example :
     chainOf wCfg ([.mempool [t1], .reap, .produce, .mempool [t1, t2], .reap, .produceFail, .restart, .mempool [t1, t2, t3],
         .reap] ++ List.replicate 3 .produce) = some [t1, t2, t3] := by decide +kernel
 
+/-! ## 6. the sequencing layer's clock
+
+`Op.produceSame` (a `GetNextBatch` answer stamped with the SAME time as the previous block: a coarse clock) is an
+operation of the histories: every theorem above holds with such steps — the guard of `publishBlockInternal` is
+`batchTime.Before(lastHeaderTime)`, equal is fine.  A clock that stepped BACKWARDS is not: -/
+
+/-- all queued transactions are still somewhere after one production step with the clock answer `clk` -/
+def keptB (c : Cfg) (σ : RunSt) (clk : Clock) : Bool :=
+  (queued σ.n).all fun t =>
+    (chainTxs (produce c σ.n .ok clk).1.prod.store ++ pendingTxs (produce c σ.n .ok clk).1.prod.store ++
+      queued (produce c σ.n .ok clk).1).contains t
+
+/-- Full statement: whatever the sequencing layer's clock shows, a production step loses no queued transaction. -/
+def C11_clock_full : Prop :=
+  ∀ (c : Cfg) (ops : List Op) (σ : RunSt) (g : Ghost) (clk : Clock), CfgOK c → history c ops = some (σ, g) →
+    keptB c σ clk = true
+
+/-- FALSE of the current code (recorded finding `C11/lost/batch-dropped-on-timestamp-regression`): the guard sits after
+`retrieveBatch` — a batch stamped before the previous block has already left the queue (memory and WAL) when the step
+returns "timestamp is not monotonically increasing"; nothing brings it back. -/
+theorem C11_clock_fails : ¬ C11_clock_full := by
+  intro h
+  have key : ∀ r, history wCfg [.mempool [t1, t2], .reap, .produce] = some r → keptB wCfg r.1 .back = false := by
+    have : (history wCfg [.mempool [t1, t2], .reap, .produce]).map (fun r => keptB wCfg r.1 .back) = some false := by
+      decide +kernel
+    intro r hr
+    rw [hr] at this
+    simpa using this
+  obtain ⟨σ, g, hh⟩ := C11_always_restarts wCfg wCfg_ok [.mempool [t1, t2], .reap, .produce]
+  have := h wCfg _ σ g .back wCfg_ok hh
+  rw [key (σ, g) hh] at this
+  cases this
+
+/-- PARTIAL (excludes the recorded case; ASSUMPTION of the property's check: the sequencing layer's clock never steps
+backwards): with a clock that shows a later time (`real`) or the same time as the previous block (`same`) a production
+step keeps every queued transaction — in every reachable state, whatever the execution layer answers. -/
+theorem C11_clock_partial (c : Cfg) (hc : CfgOK c) (ops : List Op) (σ : RunSt) (g : Ghost)
+    (h : history c ops = some (σ, g)) (clk : Clock) (hclk : clk ≠ .back) : keptB c σ clk = true := by
+  obtain ⟨σ', g', h', hf⟩ := history_inv hc ops
+  rw [h] at h'
+  simp only [Option.some.injEq, Prod.mk.injEq] at h'
+  obtain ⟨rfl, rfl⟩ := h'
+  unfold keptB
+  simp only [List.all_eq_true, List.contains_iff_mem]
+  intro t ht
+  exact produce_keeps_queued hc hf .ok clk hclk ht
+
+/-- non-vacuity: two batches committed by steps whose answers carry the timestamp of the previous block -/
+example : chainOf wCfg [.mempool [t1], .reap, .produce, .produceSame, .mempool [t1, t2], .reap, .produceSame, .produceSame] =
+    some [t1, t2] := by decide +kernel
+
+/-! ## 7. a failing queue write
+
+Datastore errors are outside the property's quantifier; what the node does when the write-ahead `Put` of a hand-off
+fails is nevertheless pinned down, because the reaper's retry rests on it. -/
+
+/-- **A hand-off whose queue write fails changes nothing** — nothing durable and nothing in memory (`AddBatch` writes
+before it appends, and returns the error): no write, the node as it was, the ghost as it was; so with an idempotent
+`GetTxs` the retry is the very same hand-off and cannot duplicate anything. -/
+theorem C11_failed_queue_write_changes_nothing (c : Cfg) (σ : RunSt) (g : Ghost) :
+    ∃ σ', opStep c σ .reapPutFails = some σ' ∧ σ'.n = σ.n ∧ σ'.ws = [] ∧ (∀ k, image σ' k = diskOf σ.n) ∧
+      gstep c σ g .reapPutFails = g ∧
+      (GetTxsIdempotent σ → reap c σ'.n σ'.mempool = reap c σ.n σ.mempool) := by
+  refine ⟨_, rfl, rfl, rfl, fun k => image_nil rfl k, rfl, fun hid => ?_⟩
+  have hid' : σ.drain = false := hid
+  show reap c σ.n (if σ.drain = true then [] else σ.mempool) = _
+  rw [hid']; rfl
+
+/-- non-vacuity: the write fails twice, then succeeds: handed over once, included once -/
+example :
+    (history wCfg [.mempool [t1, t2], .reapPutFails, .reapPutFails, .reap, .reap, .produce, .produce]).map
+      (fun r => (r.2.handed, chainTxs r.1.n.prod.store)) = some ([[t1, t2]], [t1, t2]) := by decide +kernel
+
 end Spec.C11
